@@ -23,20 +23,46 @@ const MASTER_A: u16 = 1;
 const MASTER_B: u16 = 2;
 
 /// run the library's transport writer; returns the bytes of each physical write
-pub fn lib_write(master: bool, local: u16, dest: u16, fragments: &[Vec<u8>]) -> Result<Vec<Vec<Vec<u8>>>, LinkError> {
+pub fn lib_write(
+    master: bool,
+    local: u16,
+    dest: u16,
+    fragments: &[Vec<u8>],
+) -> Result<Vec<Vec<Vec<u8>>>, LinkError> {
     let (io, mut peer) = pipe(false);
     let mut phys = PhysLayer::Verif(io);
-    let mut w = Writer::new(if master { EndpointType::Master } else { EndpointType::Outstation }, EndpointAddress::raw(local));
+    let mut w = Writer::new(
+        if master {
+            EndpointType::Master
+        } else {
+            EndpointType::Outstation
+        },
+        EndpointAddress::raw(local),
+    );
     let mut out = vec![];
     for f in fragments {
-        block_on_ready(w.write(&mut phys, DecodeLevel::nothing(), FragmentAddr { link: EndpointAddress::raw(dest), phys: PhysAddr::None }, f))?;
+        block_on_ready(w.write(
+            &mut phys,
+            DecodeLevel::nothing(),
+            FragmentAddr {
+                link: EndpointAddress::raw(dest),
+                phys: PhysAddr::None,
+            },
+            f,
+        ))?;
         out.push(peer.drain());
     }
     Ok(out)
 }
 
 /// run the library's transport reader (outstation side or master side) over the chunks
-pub fn lib_read(outstation: bool, local: u16, rx_buffer: usize, chunks: &[Vec<u8>], limit: usize) -> (Vec<(u16, Vec<u8>)>, LinkError) {
+pub fn lib_read(
+    outstation: bool,
+    local: u16,
+    rx_buffer: usize,
+    chunks: &[Vec<u8>],
+    limit: usize,
+) -> (Vec<(u16, Vec<u8>)>, LinkError) {
     let (io, mut peer) = pipe(false);
     for c in chunks {
         peer.send(c);
@@ -45,7 +71,12 @@ pub fn lib_read(outstation: bool, local: u16, rx_buffer: usize, chunks: &[Vec<u8
     let mut phys = PhysLayer::Verif(io);
     let modes = LinkModes::stream(LinkErrorMode::Discard);
     let mut r = if outstation {
-        Reader::outstation(modes, EndpointAddress::raw(local), Feature::Disabled, rx_buffer)
+        Reader::outstation(
+            modes,
+            EndpointAddress::raw(local),
+            Feature::Disabled,
+            rx_buffer,
+        )
     } else {
         Reader::master(modes, EndpointAddress::raw(local), rx_buffer)
     };
@@ -67,14 +98,24 @@ pub fn lib_read(outstation: bool, local: u16, rx_buffer: usize, chunks: &[Vec<u8
     }
 }
 
-fn write_side_ok(master: bool, local: u16, dest: u16, start_seq: u8, fragment: &[u8], writes: &[Vec<u8>]) -> Result<u8, String> {
+fn write_side_ok(
+    master: bool,
+    local: u16,
+    dest: u16,
+    start_seq: u8,
+    fragment: &[u8],
+    writes: &[Vec<u8>],
+) -> Result<u8, String> {
     let mut segs = vec![];
     for w in writes {
         match rl::try_frame(w) {
             rl::TryFrame::Ok(f, n) if n == w.len() => {
                 let ctrl = if master { 0xC4 } else { 0x44 };
                 if f.ctrl != ctrl || f.dst != dest || f.src != local {
-                    return Err(format!("link header ctrl={:#x} dst={} src={} (expected {:#x} {} {})", f.ctrl, f.dst, f.src, ctrl, dest, local));
+                    return Err(format!(
+                        "link header ctrl={:#x} dst={} src={} (expected {:#x} {} {})",
+                        f.ctrl, f.dst, f.src, ctrl, dest, local
+                    ));
                 }
                 match Segment::from_payload(f.src, &f.payload) {
                     Some(s) => segs.push(s),
@@ -101,7 +142,10 @@ fn write_side_ok(master: bool, local: u16, dest: u16, start_seq: u8, fragment: &
             return Err(format!("segment {i}: sequence {} expected {}", s.seq, seq));
         }
         if i + 1 < n && s.data.len() != 249 {
-            return Err(format!("non-final segment {i} carries {} bytes", s.data.len()));
+            return Err(format!(
+                "non-final segment {i} carries {} bytes",
+                s.data.len()
+            ));
         }
         seq = (seq + 1) & 0x3F;
         acc.extend_from_slice(&s.data);
@@ -119,31 +163,68 @@ fn exhaustive_lengths(seed: u64) -> (u64, Vec<J>, Option<(Fail, J)>) {
         beat();
         let s = seed.wrapping_mul(131).wrapping_add(len as u64);
         let master = len % 2 == 0;
-        let (local, dest) = if master { (MASTER_A, OUTSTATION) } else { (OUTSTATION, MASTER_A) };
+        let (local, dest) = if master {
+            (MASTER_A, OUTSTATION)
+        } else {
+            (OUTSTATION, MASTER_A)
+        };
         // advance the writer's sequence number by a first fragment of k segments so that every start value 0..63 occurs
         let k = (s >> 4) as usize % 9; // 0..=8 segments
-        let pre = if k == 0 { vec![] } else { pseudo_bytes(s ^ 1, 249 * (k - 1) + 1) };
+        let pre = if k == 0 {
+            vec![]
+        } else {
+            pseudo_bytes(s ^ 1, 249 * (k - 1) + 1)
+        };
         let frag = pseudo_bytes(s, len);
-        let js = J::o(vec![("fragment_len", J::U(len as u64)), ("writer", J::s(if master { "master" } else { "outstation" })), ("start_seq", J::U(k as u64))]);
+        let js = J::o(vec![
+            ("fragment_len", J::U(len as u64)),
+            ("writer", J::s(if master { "master" } else { "outstation" })),
+            ("start_seq", J::U(k as u64)),
+        ]);
         if len == 250 || len == 2048 {
             samples.push(js.clone());
         }
-        let frags: Vec<Vec<u8>> = if k == 0 { vec![frag.clone()] } else { vec![pre.clone(), frag.clone()] };
+        let frags: Vec<Vec<u8>> = if k == 0 {
+            vec![frag.clone()]
+        } else {
+            vec![pre.clone(), frag.clone()]
+        };
         let writes = match lib_write(master, local, dest, &frags) {
             Ok(w) => w,
-            Err(e) => return (n, samples, Some((Fail::new("writer-error", format!("{:?}", e)), js))),
+            Err(e) => {
+                return (
+                    n,
+                    samples,
+                    Some((Fail::new("writer-error", format!("{:?}", e)), js)),
+                )
+            }
         };
         let mut seq = 0u8;
         for (f, w) in frags.iter().zip(writes.iter()) {
             match write_side_ok(master, local, dest, seq, f, w) {
                 Ok(next) => seq = next,
-                Err(e) => return (n, samples, Some((Fail::new("write-side", format!("fragment of {} bytes: {e}", f.len())), js))),
+                Err(e) => {
+                    return (
+                        n,
+                        samples,
+                        Some((
+                            Fail::new("write-side", format!("fragment of {} bytes: {e}", f.len())),
+                            js,
+                        )),
+                    )
+                }
             }
         }
         // whatever the chunking in transit
         let all: Vec<u8> = writes.iter().flatten().flatten().copied().collect();
         let cut = (s >> 9) as usize % all.len().max(1);
-        for chunks in [vec![all.clone()], vec![all[..cut].to_vec(), all[cut..].to_vec()], all.chunks(1 + (s as usize >> 3) % 300).map(|c| c.to_vec()).collect::<Vec<_>>()] {
+        for chunks in [
+            vec![all.clone()],
+            vec![all[..cut].to_vec(), all[cut..].to_vec()],
+            all.chunks(1 + (s as usize >> 3) % 300)
+                .map(|c| c.to_vec())
+                .collect::<Vec<_>>(),
+        ] {
             n += 1;
             let (got, _err) = lib_read(master, dest, 2048, &chunks, 8);
             let exp: Vec<(u16, Vec<u8>)> = frags.iter().map(|f| (local, f.clone())).collect();
@@ -162,18 +243,42 @@ fn exhaustive_lengths(seed: u64) -> (u64, Vec<J>, Option<(Fail, J)>) {
     // every starting sequence number 0..63 for a three-segment fragment (wrap 62,63,0)
     for start in 0..64usize {
         n += 1;
-        let pre = pseudo_bytes(start as u64, 249 * start.max(1) - if start == 0 { 248 } else { 0 });
+        let pre = pseudo_bytes(
+            start as u64,
+            249 * start.max(1) - if start == 0 { 248 } else { 0 },
+        );
         let frag = pseudo_bytes(99 + start as u64, 600);
-        let frags = if start == 0 { vec![frag.clone()] } else { vec![pre, frag.clone()] };
-        let js = J::o(vec![("start_seq", J::U(start as u64)), ("fragment_len", J::U(600))]);
+        let frags = if start == 0 {
+            vec![frag.clone()]
+        } else {
+            vec![pre, frag.clone()]
+        };
+        let js = J::o(vec![
+            ("start_seq", J::U(start as u64)),
+            ("fragment_len", J::U(600)),
+        ]);
         let writes = lib_write(true, MASTER_A, OUTSTATION, &frags).unwrap();
-        if let Err(e) = write_side_ok(true, MASTER_A, OUTSTATION, if start == 0 { 0 } else { start as u8 }, &frag, writes.last().unwrap()) {
+        if let Err(e) = write_side_ok(
+            true,
+            MASTER_A,
+            OUTSTATION,
+            if start == 0 { 0 } else { start as u8 },
+            &frag,
+            writes.last().unwrap(),
+        ) {
             return (n, samples, Some((Fail::new("write-side", e), js)));
         }
         let all: Vec<u8> = writes.iter().flatten().flatten().copied().collect();
         let (got, _) = lib_read(true, OUTSTATION, 2048, &[all], 8);
         if got.last().map(|g| &g.1) != Some(&frag) {
-            return (n, samples, Some((Fail::new("roundtrip", format!("start sequence {start}")), js)));
+            return (
+                n,
+                samples,
+                Some((
+                    Fail::new("roundtrip", format!("start sequence {start}")),
+                    js,
+                )),
+            );
         }
     }
     (n, samples, None)
@@ -226,7 +331,12 @@ impl Prop for Mutated {
         }
     }
     fn floors() -> Vec<(&'static str, u32)> {
-        vec![("multi_segment", 300), ("damaged_then_clean", 100), ("oversize", 30), ("seq_wrap", 30)]
+        vec![
+            ("multi_segment", 300),
+            ("damaged_then_clean", 100),
+            ("oversize", 30),
+            ("seq_wrap", 30),
+        ]
     }
     fn strategy(_tier: Tier) -> BoxedStrategy<Case> {
         let len = prop_oneof![
@@ -245,14 +355,29 @@ impl Prop for Mutated {
             any::<u16>().prop_map(Mutation::EmptyFrame),
         ];
         (
-            prop_oneof![Just(249u16), Just(250), Just(498), Just(2048), 249u16..=2048],
+            prop_oneof![
+                Just(249u16),
+                Just(250),
+                Just(498),
+                Just(2048),
+                249u16..=2048
+            ],
             proptest::collection::vec((0u8..2, len, any::<u32>()), 1..=5),
             (prop_oneof![0u8..64, Just(62u8), Just(63u8)], 0u8..64),
             prop_oneof![3 => Just(false), 1 => Just(true)],
             proptest::collection::vec(mutation, 0..=3),
             prop_oneof![Just(0u16), 1u16..600],
         )
-            .prop_map(|(rx_buffer, fragments, start_seq, interleave, mutations, chunk)| Case { rx_buffer, fragments, start_seq, interleave, mutations, chunk })
+            .prop_map(
+                |(rx_buffer, fragments, start_seq, interleave, mutations, chunk)| Case {
+                    rx_buffer,
+                    fragments,
+                    start_seq,
+                    interleave,
+                    mutations,
+                    chunk,
+                },
+            )
             .boxed()
     }
     fn run(case: &Case) -> CaseOut {
@@ -325,7 +450,11 @@ impl Prop for Mutated {
                 }
                 Mutation::Readdress(i) => {
                     let k = idx(*i, n);
-                    segs[k].src = if segs[k].src == MASTER_A { MASTER_B } else { MASTER_A };
+                    segs[k].src = if segs[k].src == MASTER_A {
+                        MASTER_B
+                    } else {
+                        MASTER_A
+                    };
                     k
                 }
                 Mutation::ToggleFir(i) => {
@@ -361,7 +490,11 @@ impl Prop for Mutated {
         if let Some(f) = first_mutated {
             out.label("mutated");
             // is there a clean fragment that starts after the first mutation point?
-            let tail = if f < segs.len() { expected_fragments(&segs[f + 1..], case.rx_buffer as usize) } else { vec![] };
+            let tail = if f < segs.len() {
+                expected_fragments(&segs[f + 1..], case.rx_buffer as usize)
+            } else {
+                vec![]
+            };
             if !tail.is_empty() {
                 out.label("damaged_then_clean");
                 out.nontrivial = true;
@@ -374,8 +507,21 @@ impl Prop for Mutated {
                 None => bytes.extend(rl::encode(0xC4, OUTSTATION, MASTER_A, &[])),
             }
         }
-        let chunks: Vec<Vec<u8>> = if case.chunk == 0 { vec![bytes.clone()] } else { bytes.chunks(case.chunk as usize).map(|c| c.to_vec()).collect() };
-        let (got, err) = lib_read(true, OUTSTATION, case.rx_buffer as usize, &chunks, exp.len() + 16);
+        let chunks: Vec<Vec<u8>> = if case.chunk == 0 {
+            vec![bytes.clone()]
+        } else {
+            bytes
+                .chunks(case.chunk as usize)
+                .map(|c| c.to_vec())
+                .collect()
+        };
+        let (got, err) = lib_read(
+            true,
+            OUTSTATION,
+            case.rx_buffer as usize,
+            &chunks,
+            exp.len() + 16,
+        );
         if got != exp {
             let kind = if got.len() < exp.len() {
                 "fragment-lost"
@@ -384,7 +530,19 @@ impl Prop for Mutated {
             } else {
                 "fragment-differs"
             };
-            let d = |v: &Vec<(u16, Vec<u8>)>| v.iter().map(|(s, b)| format!("src{}:{}B:{:016x}", s, b.len(), xxhash_rust::xxh64::xxh64(b, 0))).collect::<Vec<_>>().join(",");
+            let d = |v: &Vec<(u16, Vec<u8>)>| {
+                v.iter()
+                    .map(|(s, b)| {
+                        format!(
+                            "src{}:{}B:{:016x}",
+                            s,
+                            b.len(),
+                            xxhash_rust::xxh64::xxh64(b, 0)
+                        )
+                    })
+                    .collect::<Vec<_>>()
+                    .join(",")
+            };
             out.fail(
                 Fail::new(
                     "reassembly-predicate",
@@ -399,7 +557,17 @@ impl Prop for Mutated {
 
 fn describe(segs: &[Segment]) -> String {
     segs.iter()
-        .map(|s| format!("{}{}{}#{}@{}:{}", if s.fir { "F" } else { "-" }, if s.fin { "N" } else { "-" }, "", s.seq, s.src, s.data.len()))
+        .map(|s| {
+            format!(
+                "{}{}{}#{}@{}:{}",
+                if s.fir { "F" } else { "-" },
+                if s.fin { "N" } else { "-" },
+                "",
+                s.seq,
+                s.src,
+                s.data.len()
+            )
+        })
         .collect::<Vec<_>>()
         .join(" ")
 }
